@@ -30,7 +30,7 @@ from props import unitlib as ul
 ID = 'C19'
 PROFILES = ['dev+bin']
 REPLAY_PROFILES = ['dev']
-TIME_LIMIT = {'quick': 300, 'thorough': 1500}
+TIME_LIMIT = {'quick': 600, 'thorough': 1500}
 BUDGET = 150
 FIRST_BUDGET = 60
 UNITSETS_MORE = [['Kelvin'], ['Ampere', 'Second'], ['units::WATT'], ['mass::POUND'], ['volume::LITRE', 'Second'], ['units::time::YEAR'], ['length::MILE', 'units::time::HOUR'], ['Mole'], ['Byte', 'Second']]
